@@ -48,7 +48,7 @@ ELTS = [("opti32", "Option<i32>", "Any"), ("f64", "f64", "Small")]
 for t, E, alpha in ELTS:
     family(f"ins_extrema_{t}", lambda n, E=E, alpha=alpha: [f"ins_extrema::<{E}, {n}, {n + 1}>(Alpha::{alpha}, &mut fl);"],
            INS + [("fl.shifted", "the arg-minimum moved past the inserted null", 1), ("fl.stayed", "the arg-minimum stayed in place", 1)],
-           [[0, 1, 2], [3]], [[4]])
+           [[0, 1], [2], [3]], [[4]])
 
 family("ins_sum_opti32", lambda n: [f"ins_sum::<{n}, {n + 1}>(&mut fl);"], INS, [[0, 1, 2], [3]], [[4]])
 
@@ -76,11 +76,13 @@ for t, E, alpha in QELTS:
 EDECL = "let mut fl = EFl::default();"
 ENC = [("fl.mixed", "a null next to a valid element", 2), ("fl.null_first", "null first, valid element behind it", 2),
        ("fl.all_null", "no valid element in a non-empty series", 1)]
-family("enc_exact", lambda n: [f"enc_exact::<{n}>(&mut fl);"], ENC, [[0, 1, 2], [3]], [[4]], decl=EDECL)
+family("enc_exact", lambda n: [f"enc_exact::<{n}>(&mut fl);"], ENC, [[0, 1], [2], [3]], [[4]], decl=EDECL)
 family("enc_quantile", lambda n: [f"enc_quantile::<{n}>(&mut fl);"], ENC, [[0, 1], [2], [3]], [[4]], decl=EDECL, stub=True, solver="minisat")
 OUTC = ENC + [("fl.null_out", "a null output position", 1), ("fl.value_out", "a non-null output position", 1)]
-family("enc_output", lambda n: [f"enc_output::<{n}>(&mut fl);"], OUTC, [[0, 1, 2], [3]], [[4]], decl=EDECL, stub=True)
-family("enc_input_rolling", lambda n: [f"enc_input_rolling::<{n}>(&mut fl);"], OUTC, [[3]], [[4]], decl=EDECL, stub=True)
+# two rolling runs per harness are expensive (c07: 80 s for ts_vsum at N = 3): one kernel per harness
+family("enc_output_vmin", lambda n: [f"enc_output_vmin::<{n}>(&mut fl);"], OUTC, [[0, 1], [2]], [[3], [4]], decl=EDECL, stub=True)
+family("enc_output_vsum", lambda n: [f"enc_output_vsum::<{n}>(&mut fl);"], OUTC, [[0, 1], [2]], [[3], [4]], decl=EDECL, stub=True)
+family("enc_input_rolling", lambda n: [f"enc_input_rolling::<{n}>(&mut fl);"], OUTC, [], [[1], [2]], decl=EDECL, stub=True)
 
 
 def main():
